@@ -169,7 +169,12 @@ func (fm *Server) Init(ctx context.Context, req *pb.InitRequest) (*pb.Response, 
 	fm.lock.Lock()
 	fm.status = FuseManagerWaitInit
 	defer func() {
-		fm.status = FuseManagerReady
+		// The manager can serve requests only once a filesystem instance exists. If the very
+		// first initialization fails before that, stay not-ready instead of accepting requests
+		// that would dereference a nil filesystem.
+		if fm.curFs != nil {
+			fm.status = FuseManagerReady
+		}
 		fm.lock.Unlock()
 	}()
 
